@@ -2808,3 +2808,74 @@ Factor: ')' Expr ')';
         }
     }
 }
+
+/// Verification hooks (compiled only under `--cfg kani` / `--cfg grmtools_verif`): thin wrappers
+/// around the private byte-offset scanners. Each returns `Ok(new offset)` or
+/// `Err((error kind, span start, span end))` for the first span of the error.
+#[cfg(any(kani, grmtools_verif))]
+pub mod verif {
+    use super::{YaccGrammarError, YaccGrammarErrorKind, YaccKind, YaccParser};
+    use crate::Spanned;
+
+    pub type R<T> = Result<T, (u8, usize, usize)>;
+
+    pub const REACHED_EOL: u8 = 1;
+    pub const INCOMPLETE_COMMENT: u8 = 2;
+    pub const INCOMPLETE_ACTION: u8 = 3;
+    pub const ILLEGAL_INTEGER: u8 = 4;
+    pub const INVALID_STRING: u8 = 5;
+
+    fn cvt(e: YaccGrammarError) -> (u8, usize, usize) {
+        let s = e.spans()[0];
+        let k = match e.kind {
+            YaccGrammarErrorKind::ReachedEOL => REACHED_EOL,
+            YaccGrammarErrorKind::IncompleteComment => INCOMPLETE_COMMENT,
+            YaccGrammarErrorKind::IncompleteAction => INCOMPLETE_ACTION,
+            YaccGrammarErrorKind::IllegalInteger => ILLEGAL_INTEGER,
+            YaccGrammarErrorKind::InvalidString => INVALID_STRING,
+            _ => 0,
+        };
+        (k, s.start(), s.end())
+    }
+
+    pub fn parse_ws(src: &str, i: usize, inc_newlines: bool) -> R<usize> {
+        YaccParser::new(YaccKind::Grmtools, src)
+            .parse_ws(i, inc_newlines)
+            .map_err(cvt)
+    }
+
+    pub fn parse_action(src: &str, i: usize) -> R<usize> {
+        YaccParser::new(YaccKind::Grmtools, src)
+            .parse_action(i)
+            .map(|(j, _)| j)
+            .map_err(cvt)
+    }
+
+    pub fn parse_to_eol(src: &str, i: usize) -> R<usize> {
+        YaccParser::new(YaccKind::Grmtools, src)
+            .parse_to_eol(i)
+            .map(|(j, _)| j)
+            .map_err(cvt)
+    }
+
+    pub fn parse_to_single_colon(src: &str, i: usize) -> R<usize> {
+        YaccParser::new(YaccKind::Grmtools, src)
+            .parse_to_single_colon(i)
+            .map(|(j, _)| j)
+            .map_err(cvt)
+    }
+
+    pub fn parse_int_usize(src: &str, i: usize) -> R<(usize, usize)> {
+        YaccParser::new(YaccKind::Grmtools, src)
+            .parse_int::<usize>(i)
+            .map_err(cvt)
+    }
+
+    /// Returns the new offset and the length of the unescaped string.
+    pub fn parse_string(src: &str, i: usize) -> R<(usize, usize)> {
+        YaccParser::new(YaccKind::Grmtools, src)
+            .parse_string(i)
+            .map(|(j, s)| (j, s.len()))
+            .map_err(cvt)
+    }
+}
